@@ -275,6 +275,14 @@ def run(model, tier="quick"):
     # constructors establish the relations between fields that the references above take for granted
     from .ctor_refs import constructors
     res.units["constructor_references"] = constructors(res, model, ('market', 'broker', 'pool', 'squeeth', 'deribit', 'gmx2', 'aave'))
+    # premises owned by neighbouring checks whose violation breaks exactly-once valuation: what a position is worth
+    # (amounts + pending counted once) is decided by these two functions for the Uniswap market AND for the vault that holds it
+    from . import uni_refs as _U, C09 as _C09
+    formula_check(res, model, "UniLpMarket.get_position_amount", _U.REF_POSITION_AMOUNT,
+                  "position amounts at the bar price (liquidity only: pending fees are added by the callers, once)", opaque=_C09.OPQ, aliases=_C09.UNI_ALIASES)
+    formula_check(res, model, "UniLpMarket.get_position_status", _U.REF_POSITION_STATUS,
+                  "position status: liquidity + pending amounts valued by orientation", opaque=_C09.OPQ + ["get_position_amount", "_get_value"],
+                  aliases=_C09.UNI_ALIASES)
     from ..rules.fresh import fresh_rule
     if "R-FRESH" not in res.rules:
         res.rules.append("R-FRESH")
